@@ -245,8 +245,47 @@ func fabioSNI(stream []byte) (name string, ok bool, bufSize int, err error) {
 	if bufSize > len(stream) {
 		return "", false, bufSize, io.ErrUnexpectedEOF
 	}
-	name, ok = tcp.VerifReadServerName(stream[5:bufSize])
+	// an exact-capacity copy: a read past the end of the buffered bytes panics
+	// instead of silently seeing what follows in the caller's slice
+	exact := make([]byte, bufSize-5)
+	copy(exact, stream[5:bufSize])
+	name, ok = tcp.VerifReadServerName(exact)
 	return name, ok, bufSize, nil
+}
+
+// nameInsideSNI: a non-empty extracted name must be the bytes of a host_name
+// entry that lies, by its own length field, inside the name list of a
+// server_name extension of the buffered hello.  A name that runs past the end
+// of its extension was read out of bounds of the structure it belongs to.
+func nameInsideSNI(buffered []byte, name string) (bool, string) {
+	_, exts, ok := splitHello(buffered)
+	if !ok {
+		return false, "the extension block of the buffered hello is not well delimited"
+	}
+	why := "no server_name extension"
+	for _, e := range exts {
+		if e.typ != 0 {
+			continue
+		}
+		if len(e.data) < 2 {
+			why = "server_name extension shorter than its list length"
+			continue
+		}
+		list := e.data[2:]
+		why = "no host_name entry inside the server_name extension carries these bytes"
+		for len(list) >= 3 {
+			l := int(list[1])<<8 | int(list[2])
+			if 3+l > len(list) {
+				why = fmt.Sprintf("host_name entry declares %d bytes but only %d are left in its extension", l, len(list)-3)
+				break
+			}
+			if list[0] == 0 && string(list[3:3+l]) == name {
+				return true, ""
+			}
+			list = list[3+l:]
+		}
+	}
+	return false, why
 }
 
 type failer interface {
@@ -269,6 +308,11 @@ func checkWellFormed(t failer, rec []byte, what string) (name string, accepted b
 		got, ok, size, err = fabioSNI(rec)
 	}()
 	recLen := int(rec[3])<<8 | int(rec[4])
+	if err == nil && ok && got != "" {
+		if inside, why := nameInsideSNI(rec[:size], got); !inside {
+			t.Fatalf("fabio extracted %q from a %s ClientHello, but %s\n%s", got, what, why, hex.EncodeToString(rec))
+		}
+	}
 	if err == nil {
 		if size > 5+recLen {
 			t.Fatalf("buffer size %d exceeds the first TLS record (%d bytes)\n%s", size, 5+recLen, hex.EncodeToString(rec[:9]))
@@ -775,6 +819,75 @@ func TestC10Corruptions(t *testing.T) {
 			hx.Class("corrupted:rejected-by-crypto/tls")
 		}
 		hx.NonTrivial(hex.EncodeToString(rec[9+34:]))
+	})
+}
+
+// Length-field edits: one of the nested length fields around the server name
+// (record, handshake, extension block, extension, name list, name) is moved by
+// a few bytes, optionally with a second field moved the same way.
+func TestC10LengthEdits(t *testing.T) {
+	hx.Check(t, hx.Scale(20000, 300000), func(t *rapid.T) {
+		base := rapid.SampledFrom(baseHellos()).Draw(t, "base")
+		fixed, exts, ok := splitHello(base)
+		if !ok {
+			t.Fatalf("harness cannot split its own base hello")
+		}
+		var others []ext
+		for _, e := range exts {
+			if e.typ != 0 {
+				others = append(others, e)
+			}
+		}
+		others = others[:rapid.IntRange(0, len(others)).Draw(t, "keep")]
+		name := []byte(rapid.SampledFrom(serverNames).Draw(t, "name"))
+		if len(name) == 0 {
+			name = []byte("x.example")
+		}
+		pos := rapid.SampledFrom([]int{len(others), len(others), 0, len(others) / 2}).Draw(t, "snipos") // last twice: nothing behind the name
+		all := append(others[:pos:pos], append([]ext{{0, sniPayload([]sniEntry{{0, name}})}}, others[pos:]...)...)
+		rec := buildRecord(fixed, all, false, 0)
+		// offsets of the length fields
+		off := 9 + len(fixed) // extension block length
+		blockLen := off
+		p := off + 2
+		for i := 0; i < pos; i++ {
+			p += 4 + len(all[i].data)
+		}
+		extLen, listLen, nameLen := p+2, p+4, p+7
+		fields := map[string]int{"record": 3, "handshake": 7, "extension-block": blockLen, "sni-extension": extLen, "name-list": listLen, "name": nameLen}
+		names := []string{"name", "name-list", "sni-extension", "extension-block", "handshake", "record"}
+		edit := func(label string) string {
+			f := rapid.SampledFrom(names).Draw(t, label)
+			d := rapid.SampledFrom([]int{1, 2, 3, -1, -2, -3, 4, 255, -4}).Draw(t, label+"delta")
+			at := fields[f]
+			v := int(rec[at])<<8 | int(rec[at+1])
+			v += d
+			if v < 0 {
+				v = 0
+			}
+			rec[at], rec[at+1] = byte(v>>8), byte(v)
+			return fmt.Sprintf("%s%+d", f, d)
+		}
+		what := edit("field")
+		if rapid.IntRange(0, 2).Draw(t, "second") == 0 {
+			what += "," + edit("field2")
+		}
+		hx.Eval()
+		_, called := checkWellFormed(t, rec, "length-edited ("+what+")")
+		hx.EvalN(sweepTruncations(t, rec))
+		if called {
+			hx.Class("length-edit:still-accepted-by-crypto/tls")
+		} else {
+			hx.Class("length-edit:rejected-by-crypto/tls")
+		}
+		if pos == len(others) {
+			hx.Class("length-edit:server-name-is-the-last-extension")
+		}
+		hx.Class("length-edit:" + strings.SplitN(what, ",", 2)[0])
+		hx.NonTrivial(what + hex.EncodeToString(rec[9+34:]))
+		if hx.WantSample("length-edit") && len(rec) < 300 {
+			hx.Sample("length-edit", map[string]any{"edit": what, "hex": hex.EncodeToString(rec)})
+		}
 	})
 }
 
